@@ -147,7 +147,8 @@ class RemoteServer():
                                 logger.warning('Context {} does not exist', ctx_id)
                             else:
                                 if not current.wait(timeout=5):
-                                    result = current.terminate(timeout=0.1)
+                                    # (not too hasty: a helper which gets SIGKILLed before its SIGTERM handler has run leaves the workers it has not dealt with yet behind)
+                                    result = current.terminate(timeout=1)
                                 logger.info('Context {} removed', ctx_id)
                                 del current
                         else:
